@@ -171,6 +171,11 @@ class Prop(common.PropertyCheck):
         # integer samples (events kept in the integer container they were loaded into)
         for i in range(2):
             yield dict(base_case, K=6 + i, sizes=[450] * (6 + i), nch=1 + i, intdata=True, clust=['all', 'first'][i], saturate=bool(i), seed=3000 + i)
+        # a clustering function whose labels are not 0 .. n-1 (1-based as scipy's fcluster numbers them; arbitrary distinct integers)
+        yield dict(base_case, nch=1, K=6, sizes=[450] * 6, labels='one_based', seed=6100)
+        yield dict(base_case, nch=2, K=7, sizes=[420] * 7, labels='offset', unknown=[(1, 2)], seed=6101)
+        # diagnostic plots on while subpopulations are left out of the fit in the first of two channels (brightest piled up, one value unknown in the middle)
+        yield dict(base_case, nch=2, K=7, sizes=[420] * 7, saturate=True, unknown=[(0, 3)], plot=True, seed=6000)
         # integer containers whose brightest subpopulations lie above 2**16 (32-bit files) resp. above 2**8 (16-bit files): squares of events do not fit the container
         yield dict(base_case, K=6, sizes=[450] * 6, ratio=2.5, nch=1, intdata=True, top_fixed=125000, seed=3010)
         yield dict(base_case, K=7, sizes=[400] * 7, ratio=2.6, nch=2, intdata=True, top_fixed=120000, clust='first', seed=3011)
@@ -282,6 +287,10 @@ class Prop(common.PropertyCheck):
         rr = np.random.RandomState(case['seed'] % 1000)
         rename = rr.permutation(K)
         true_labels = rename[tr['label']]
+        if case.get('labels') == 'offset':
+            true_labels = 3 * true_labels + 1          # a clustering function that numbers its clusters 1, 4, 7, ... (any distinct integers are labels)
+        elif case.get('labels') == 'one_based':
+            true_labels = true_labels + 1
 
         # the caller's MEF table: nested lists, or one 2-D float array reused across all calls of this case (unknown entries as NaN)
         mv_arg = tr['mef_values']
